@@ -37,6 +37,13 @@ def check(run):
     run.nontrivial += len(recs[::step])
     shapes = ef.eval_model_and_replay(run, "shapes-d1", ef.mceval_cfg("c16-d1", depth=1, full_faults=False, modes=("mixed",)), "C16", sample_filter=lambda r: True)
     determinism(run, "shapes-d1", shapes[::(1 if thorough else 2)])
+    # every ordered pair of the dispatch configurations (the same name resolved globally, then through a shadowing context, ...)
+    disp = ef.eval_model_and_replay(run, "dispatch", ef.mceval_cfg("c16-dispatch", family="dispatch"), "C16", sample_filter=lambda r: True)
+    pairs = []
+    for a in disp:
+        for b in disp:
+            pairs += [a, b]
+    determinism(run, "dispatch-pairs", pairs)
     ef.eval_trace(run, "concurrent", 16000 if thorough else 2400, run.seed + 21, "C16", threads=8)
     run.exhaustive = False
     run.assumptions += ["handler identity in the registry snapshot is the Arc pointer; evaluations of the harness's own cases re-register their marker handlers, so across cases names and configuration are compared",
